@@ -208,6 +208,25 @@ CLAIMED = {
         "technique": "Lean 4 proof (invariant by induction over operation histories, refinement to a map) + "
                      "crash-point sweep + history correspondence",
     },
+    "C05": {
+        "text": "PARTIAL proof. Lean model of promotePrefixes (threaded through the children exactly as the loop "
+                "mutates), PrefixNormalizer and refitPrefixes over the shared tree model, and of the namespace-"
+                "resolved infoset. Proved: one hoist step captures nothing (every prefix that resolved below the "
+                "parent still resolves to the same namespace, through any inner scopes) and the donor keeps its "
+                "binding - the inductive heart of 'promotion preserves the infoset'; a kernel-checked witness that "
+                "the un-repaired rule captures (D5, fixed in /repo) while the repaired one does not; promotion moves "
+                "tables only; refit leaves no element prefix. Not proved: the whole-tree induction (statement kept as "
+                "promoteStmt). The whole-tree claim rests on (a) correspondence model = code for all three passes on "
+                "generated namespace-well-formed trees (shadowing, re-declaration, QName-valued attributes) and (b) "
+                "the expat oracle: infoset before = infoset after, every prefix declared; end-to-end all 16 option "
+                "settings x argument shapes (xsi:type, xsi:nil, qualified/unqualified, two namespaces, raw Elements, "
+                "Element headers) pairwise infoset-equal.",
+        "design_ref": "DESIGN.md section 6 C05, appendix A.2",
+        "note": "known findings D24/D25 (prefixes=False with caller-supplied trees relying on default namespaces); "
+                "D3, D4, D5, D23 were genuine defects fixed in /repo.",
+        "technique": "Lean 4 proof of the hoist-step lemmas + kernel-checked counterexample for the old rule; "
+                     "differential correspondence + independent XML reader as oracle",
+    },
 }
 
 NOT_YET = "check not built yet in this round (design in DESIGN.md section 6); not claimed"
